@@ -33,14 +33,21 @@ class VirtualLoop(asyncio.SelectorEventLoop):
         super()._run_once()
 
 
-async def settle(loop=None, rounds=200):
-    """Let every spawned task run to its next real suspension."""
+async def settle(loop=None, rounds=500, horizon=5.0):
+    """Let every spawned task run to its next real suspension.  Timers due
+    within `horizon` virtual seconds (handler pauses) are waited for; later
+    ones (call() timeouts, back-off sleeps) are left pending."""
     loop = loop or asyncio.get_event_loop()
+    t_end = loop.time() + horizon
     for _ in range(rounds):
         await asyncio.sleep(0)
-        if not loop._ready:
+        if loop._ready:
+            continue
+        timers = [h._when for h in loop._scheduled if not h._cancelled
+                  and h._when <= t_end]
+        if not timers:
             return
-    # still busy after many rounds: leave it to the caller
+        await asyncio.sleep(max(0.0, min(timers) - loop.time()))
 
 
 class VirtualEvent:
